@@ -239,4 +239,5 @@ pub fn run(run: &Run) {
     run.explore(&u2::addr_universe());
     run.explore(&u2::byte_universe(run.tier.pick(3, 4)));
     run.explore(&super::c11::EmbeddedTlv { n: run.tier.pick(5, 7) });
+    run.explore(&super::c11::EmbeddedText { n: run.tier.pick(5, 7) });
 }
